@@ -3,6 +3,9 @@
 REGISTRY = {
     "C01": {
         "level": "exploration",
+        "claim": 'Generated item trees over every format code, boundary counts, nesting to 64 and every constructor shape, compared byte-for-byte with an independent SEMI E5 reference encoder and round-tripped through Decode with all accessor families.',
+        "trust": "Trusts the reference codec harness/ref/e5 (written from the standard) and Go's float32 conversion.",
+        "technique": 'property-based testing (rapid): differential vs reference encoder + round trip',
         "tests": [
             {"name": "TestC01Encode", "shards": 8, "shards_thorough": 16},
         ],
@@ -10,6 +13,9 @@ REGISTRY = {
     },
     "C02": {
         "level": "exploration",
+        "claim": 'Structured mutations of valid encodings (byte flips, truncations, length rewrites, non-canonical headers, depth 63/64/65) and hostile constants decoded by both entry points; accept/reject and value compared with an independent E5 reference decoder, re-encoding compared with the consumed prefix, allocation metered against a linear bound; coverage-guided native fuzzing in the thorough tier.',
+        "trust": 'Trusts harness/ref/e5.Decode as the grammar; the allocation bound (128x input + 256 KiB) is a calibrated constant.',
+        "technique": 'property-based testing (rapid) + native go fuzzing: differential vs reference decoder, allocation meter',
         "tests": [
             {"name": "TestC02Decode", "shards": 8, "shards_thorough": 16},
             {"name": "TestC02Hostile", "shards": 1},
@@ -19,6 +25,9 @@ REGISTRY = {
     },
     "C13": {
         "level": "exploration",
+        "claim": 'Generated messages over the stated item grammar x all encoder options round-tripped through the strict encoder and strict parser; parser-accepted texts produced by a grammar-directed text generator re-encoded and re-parsed.',
+        "trust": 'Trusts secs2.Equal-independent comparison through harness/ref/e5 values read back by obs.',
+        "technique": 'property-based testing (rapid): round trip both directions',
         "tests": [
             {"name": "TestC13EncodeParse", "shards": 8, "shards_thorough": 16},
             {"name": "TestC13ParseEncode", "shards": 8, "shards_thorough": 16},
@@ -27,16 +36,25 @@ REGISTRY = {
     },
     "C15": {
         "level": "exploration",
+        "claim": 'Generated item trees (all types, EmptyItem children, extreme numerics) rendered by both renderers and compared byte for byte; numeric/boolean/binary leaves read back by the library parser and compared with the reference values.',
+        "trust": "The differential is between the library's two renderers (that agreement IS the property); read-back trusts harness/ref/e5 values.",
+        "technique": 'property-based testing (rapid): differential between renderers + parse read-back',
         "tests": [{"name": "TestC15Renderers", "shards": 8, "shards_thorough": 16}],
         "require": {"empty-child": 100, "extreme-numeric": 100, "readback": 500},
     },
     "C16": {
         "level": "exploration",
+        "claim": "Generated constructor argument lists over all Go scalar/slice/string/other types, all byte sizes and values at/beyond each width's bounds, compared with a table-driven model of the documented clamp/refuse contract; errored items (direct and nested) checked against Equal, message constructors and builders.",
+        "trust": 'Trusts the contract model in props/c16_test.go (written from the constructor docs).',
+        "technique": 'property-based testing (rapid): model-based oracle',
         "tests": [{"name": "TestC16Constructors", "shards": 4, "shards_thorough": 16}],
         "require": {"c16:clamped": 500, "c16:refused": 1000, "c16:value": 1000},
     },
     "C14": {
         "level": "exploration",
+        "claim": 'Grammar-directed mutations of valid SML and random strings through every parse entry point in both modes (no panic, valid-or-error, independently recomputed error positions); parametric resource shapes (nesting to 4M, 2^31-1 size hints, long tokens) parsed in a child process under an address-space limit; concurrent parser/encoder pairs under the race detector.',
+        "trust": 'Crash containment relies on the child-process exit status; time bound is a generous budget (30 s for <= 1 MiB).',
+        "technique": 'property-based testing (rapid) + resource-shape families in a sandboxed child + native go fuzzing (thorough)',
         "tests": [
             {"name": "TestC14Total", "shards": 8, "shards_thorough": 16, "crash_is_violation": True},
             {"name": "TestC14Resources", "shards": 1, "crash_is_violation": True},
@@ -45,3 +63,9 @@ REGISTRY = {
         "require": {"c14:some-rejected": 2000, "c14:all-accepted": 500, "shape:hint": 50, "shape:nest": 9, "c14conc": 100},
     },
 }
+
+# property id -> reason, for properties that are not claimed (kept current)
+NOT_APPLICABLE = {}
+
+# commits in /repo that add the build-tag-guarded hooks
+HOOK_COMMITS = []
